@@ -151,6 +151,38 @@ fn record<T: serde::Serialize + ?Sized>(v: &T) -> (Recorded, bool) {
   (r, ok)
 }
 
+// ---- an element type with a ledger: every value created by deserialization must be destroyed exactly
+// once, whatever happens (success, element error part-way, in place over old contents) ----
+static LEDGER: std::sync::Mutex<Vec<u8>> = std::sync::Mutex::new(Vec::new());   // 1 = live, 2 = dropped, 3 = dropped twice
+#[derive(Debug)]
+struct Tracked(usize, u32);
+impl Tracked {
+  fn new(v: u32) -> Tracked {
+    let mut l = LEDGER.lock().unwrap();
+    l.push(1);
+    Tracked(l.len() - 1, v)
+  }
+}
+impl Drop for Tracked {
+  fn drop(&mut self) {
+    let mut l = LEDGER.lock().unwrap();
+    l[self.0] = if l[self.0] == 1 { 2 } else { 3 };
+  }
+}
+impl<'de> Deserialize<'de> for Tracked {
+  fn deserialize<D: Deserializer<'de>>(d: D) -> Result<Self, D::Error> {
+    u32::deserialize(d).map(Tracked::new)
+  }
+}
+fn ledger_reset() {
+  LEDGER.lock().unwrap().clear();
+}
+// (still live, destroyed twice)
+fn ledger_state() -> (usize, usize) {
+  let l = LEDGER.lock().unwrap();
+  (l.iter().filter(|x| **x == 1).count(), l.iter().filter(|x| **x == 3).count())
+}
+
 fn tracked<R>(f: impl FnOnce() -> R) -> (R, usize) {
   // bytes requested from the allocator by the call (tracked allocations only)
   let _ = alloc::take_events();
@@ -290,6 +322,46 @@ pub fn run() {
         if !(valid && popped && failed == should_fail && fresh.is_err() == should_fail) {
           bad += 1;
           println!("ERR len={} at={} prior={} failed={} valid={} popped={}", items.len(), k, prior, failed, valid, popped);
+        }
+      }
+    }
+  }
+  // ownership through deserialization: elements with a destructor, every claimed hint, an element error
+  // at every position, fresh and in place over old contents: after everything has been dropped no
+  // element is still live and none was destroyed twice; on success the contents are exact
+  for len in [0usize, 1, 2, 3, 5, 9] {
+    let items: Vec<u32> = (0..len as u32).map(|x| 70 + x).collect();
+    for h in [None, Some(0usize), Some(1), Some(len), Some(len + 4), Some(100_000)] {
+      for fail_at in (0..=len).map(Some).chain(std::iter::once(None)) {
+        ledger_reset();
+        let r = MiniVec::<Tracked>::deserialize(D(Seq { items: &items, pos: 0, hint: h, fail_at }));
+        let exact = match &r {
+          Ok(v) => fail_at.is_none() && v.len() == len && v.iter().zip(items.iter()).all(|(a, b)| a.1 == *b),
+          Err(_) => fail_at.is_some(),
+        };
+        drop(r);
+        let (live, twice) = ledger_state();
+        n += 1;
+        if !(exact && live == 0 && twice == 0) {
+          bad += 1;
+          println!("ERR OWN fresh len={} hint={:?} fail_at={:?} exact={} still_live={} destroyed_twice={}", len, h, fail_at, exact, live, twice);
+        }
+        for prior in [0usize, 2, len + 2] {
+          ledger_reset();
+          let mut place: MiniVec<Tracked> = (0..prior as u32).map(|x| Tracked::new(500 + x)).collect();
+          let r = MiniVec::<Tracked>::deserialize_in_place(D(Seq { items: &items, pos: 0, hint: h, fail_at }), &mut place);
+          let ok = match &r {
+            Ok(()) => fail_at.is_none() && place.len() == len && place.iter().zip(items.iter()).all(|(a, b)| a.1 == *b),
+            Err(_) => fail_at.is_some() && place.len() <= place.capacity(),
+          };
+          let (_, twice0) = ledger_state();
+          drop(place);
+          let (live, twice) = ledger_state();
+          n += 1;
+          if !(ok && live == 0 && twice == 0 && twice0 == 0) {
+            bad += 1;
+            println!("ERR OWN inplace len={} hint={:?} fail_at={:?} prior={} ok={} still_live={} destroyed_twice={}", len, h, fail_at, prior, ok, live, twice);
+          }
         }
       }
     }
